@@ -380,8 +380,20 @@ def r3_order_free_aggregates(ctx):
     r4_table_laws(ctx)
 
 
+def _more(name):
+    def run(ctx):
+        from . import more
+
+        getattr(more, name)(ctx)
+
+    run.__name__ = name
+    return run
+
+
 RULES = [
     ("C06.R3", "P1", r3_order_free_aggregates, "decisions about a rank are order-free aggregates (any over the rank; table only on disjoint keys)"),
     ("C06.R1", "P1", r1_no_address_in_decisions, "no address- or hash-derived value in a decision"),
     ("C06.R2", "P1", r2_set_order, "set order must not reach an order-sensitive consumer"),
+    ("C06.R4", "P1", _more("sort_key_refines_dominance"), "the sort key refines dominance (interpreted)"),
+    ("C06.R5", "P1", _more("recompiler_globals_are_unique"), "globals planted by the re-compiler are named uniquely"),
 ]
